@@ -1618,7 +1618,8 @@ class Torrent():
         else:
             try:
                 metainfo_enc = bencode.decode(content)
-            except (bencode.DecodingError, ValueError):
+            except (bencode.DecodingError, ValueError, OverflowError, MemoryError):
+                # OverflowError/MemoryError: Insanely large string length prefix
                 raise error.BdecodeError()
             else:
                 if not isinstance(metainfo_enc, abc.Mapping):
